@@ -485,8 +485,8 @@ class Edwards_TurboInstrumentController(QMI_Instrument):
     def close(self) -> None:
         _logger.info("Closing connection to instrument [%s]", self._name)
         self._check_is_open()
-        self._transport.close()
         super().close()
+        self._transport.close()
 
     @rpc_method
     def get_idn(self) -> QMI_InstrumentIdentification:
